@@ -280,3 +280,14 @@ func (r *Report) Finish(explanation string, assumptions []string, notCovered str
 	}
 	return 0
 }
+
+// failed counts the obligations recorded as violated so far (used by controls on a scratch report).
+func (r *Report) failed() int {
+	n := 0
+	for _, o := range r.Obls {
+		if o.Status != "ok" && o.Status != "known" {
+			n++
+		}
+	}
+	return n
+}
